@@ -11,10 +11,11 @@ EXTENDS SQVM, SQGen, SequencesExt, Json
 
 \* Scenarios: a set of small descriptors; the operators below expand a descriptor (the MC module
 \* keeps the numbered trees in constant tables so that states stay small)
-CONSTANTS Scenarios, ScCalls(_), ScHost(_), ScNames0(_), ScHeap0(_), ScBound(_)
+CONSTANTS Scenarios, ScCalls(_), ScHost(_), ScNames0(_), ScHeap0(_), ScBound(_),
+          KeepHist      \* BOOLEAN: record the event history of mN (needed by the order properties of C09)
 
-VARIABLES sc, mN, mU, phase, atLimit
-vars == <<sc, mN, mU, phase, atLimit>>
+VARIABLES sc, mN, mU, phase, atLimit, hist
+vars == <<sc, mN, mU, phase, atLimit, hist>>
 
 CallsU(s) == [i \in 1..Len(ScCalls(s)) |-> [ScCalls(s)[i] EXCEPT !.max = Unlimited]]
 Swallows(s) == \E n \in DOMAIN ScHost(s) : ScHost(s)[n].h = "call" /\ ScHost(s)[n].mode = "swallow"
@@ -24,6 +25,7 @@ Init == /\ sc \in Scenarios
         /\ mU = InitMachine(ScHeap0(sc), ScNames0(sc), <<>>)
         /\ phase = "sync"
         /\ atLimit = [log |-> <<>>, heap |-> <<>>, names |-> <<>>]
+        /\ hist = <<>>
 
 \* everything except the budgets
 Core(m) == [m EXCEPT !.vms = [i \in DOMAIN m.vms |-> [m.vms[i] EXCEPT !.max = 0]]]
@@ -34,6 +36,7 @@ SyncStep ==
     /\ LET n2 == Step(mN, ScCalls(sc), ScHost(sc), NoOrc)
            u2 == Step(mU, CallsU(sc), ScHost(sc), NoOrc) IN
        /\ mN' = n2 /\ mU' = u2
+       /\ hist' = IF KeepHist THEN hist \o n2.ev ELSE hist
        /\ IF mN.ctl.t = "eval" /\ LimitFired(n2)
           THEN /\ phase' = "nOnly"
                /\ atLimit' = [log |-> n2.log, heap |-> n2.heap, names |-> n2.names]
@@ -45,13 +48,14 @@ NOnlyStep ==
     /\ phase = "nOnly"
     /\ mN' = Step(mN, ScCalls(sc), ScHost(sc), NoOrc)
     /\ phase' = IF mN'.ctl.t \in {"start", "halt", "unspec"} THEN "uOnly" ELSE "nOnly"
+    /\ hist' = IF KeepHist THEN hist \o mN'.ev ELSE hist
     /\ UNCHANGED <<sc, mU, atLimit>>
 UOnlyStep ==
     /\ phase = "uOnly"
     /\ IF mU.ctl.t \in {"start", "halt", "unspec"} \/ Len(mU.log) > 40
        THEN phase' = "done" /\ UNCHANGED mU
        ELSE mU' = Step(mU, CallsU(sc), ScHost(sc), NoOrc) /\ phase' = "uOnly"
-    /\ UNCHANGED <<sc, mN, atLimit>>
+    /\ UNCHANGED <<sc, mN, atLimit, hist>>
 
 \* named actions by the kind of step of mN (coverage)
 StartCallA == StepKind(mN) = "StartCall" /\ SyncStep
